@@ -54,6 +54,20 @@ Deq == [a |-> {0,1,2,3,4,5}, b |-> {0,1}]
 ActsC03n == {"unwatch","set","update","trigger"}
 ActsC04n == {"set","update","updatectx","trigger","batch","discard"}
 ActsC05n == {"set","update","trigger","batch","discard","raise","raisebody"}
+\* a Parameter attribute ("slot": here the bounds of a) as a second dispatch name: events carry
+\* what = "bounds"; slot watchers all have the same precedence (the property orders value watchers only);
+\* the third configuration is a watch_values (kwargs-mode) watcher
+Ps == <<"a", "sa">>
+Ks == [a |-> "int", sa |-> "slot"]
+Ds == [a |-> {0,1,9}, sa |-> {0,1,7}]
+WCs == { [ps |-> <<"a">>,  oc |-> TRUE,  q |-> FALSE, prec |-> 0],
+         [ps |-> <<"sa">>, oc |-> TRUE,  q |-> FALSE, prec |-> 0],
+         [ps |-> <<"sa">>, oc |-> FALSE, q |-> TRUE,  prec |-> 0],
+         [ps |-> <<"a">>,  oc |-> FALSE, q |-> FALSE, prec |-> 1, mode |-> "kwargs"] }
+IWs == Seqs01(WCs) \cup Seqs2(WCs)
+UIs == { <<<<"a",1>>>>, <<<<"a",0>>>>, <<<<"a",9>>>> }
+TNs == { <<"a">> }
+ActsC03sl == {"set","update","trigger","batch","unwatch"}
 ActsC02 == {"set","update","batch","watch"}
 ActsC03s == {"watch","set","update"}
 ActsAll == {"watch","unwatch","set","update","updatectx","trigger","batch","discard","raise","raisebody"}
